@@ -86,6 +86,14 @@ claim("C20",
       "PHYLIP's declared dimensions are compared after parsing. Well-formedness of returned objects and loops with numeric progress are not decided.",
       NOTE, "DESIGN.md section 2, C20")
 
+claim("C13",
+      "dispatch/forwarding extraction, who-builds-nodes ownership check, sibling (clone) comparison of the two NEXUS front ends as token-branch maps, selection-expression extraction",
+      "Static: all four source kinds reach the one stream parser with schema/kwargs forwarded and an untransformed stream; tree nodes are built from tokens in exactly one "
+      "function reached by every Newick/NEXUS route; the NEXUS reader and the NEXUS tree yielder have the same token branches, callees and loop guards modulo declared "
+      "differences and the Newick reader/yielder configure tokenizer and mapper alike; offsets select from one full read and the selected tree is not altered; every reader "
+      "service delegates to the same _read. Equality of delivered trees and the NeXML routes beyond dispatch are not decided.",
+      NOTE, "DESIGN.md section 2, C13")
+
 _PENDING = "rule module not yet built in this session (claimed in DESIGN.md; will move to checks when the rule lands)"
 for _p in ["C01","C02","C03","C04","C05","C06","C07","C08","C09","C10","C11","C12","C13","C15","C16","C18","C20"]:
     if _p not in CLAIMED:
